@@ -105,7 +105,7 @@ def _case(draw):
             if len(kinds) > 1:
                 entry = "ce0"
             else:
-                es = ["state"] + (["env"] if info.kind[ts[0]] != "custom" else []) + info.ces_of(ts[0])
+                es = ["state"] + (["env"] if info.env_of(ts[0]) else []) + info.ces_of(ts[0])
                 entry = draw(st.sampled_from(es))
             events.append(dict(ev="apply", slot=i, entry=entry, targets=list(ts)))
     return dict(spec=spec, layout=layout, contraction=draw(st.booleans()), slots=slots, events=events)
